@@ -21,11 +21,15 @@
   The text layer inside the JSON (`str(location)` / `location_from_string`, `str(int)` / `int(text)`)
   is covered: `ASV.C04.string_roundtrip` (proved for all locations with ≥ 1 part) is used for the
   protocluster and TTA locations, `strInt_intStr` for the numeric qualifiers.
-  The one hypothesis that is not established here: `ModRules.accepts` — C14's contract that every
-  module produced by `build_modules_for_cds`/`combine_modules` can be re-added component by
-  component (part of `Module.valid`; the correspondence runs the real re-adding on built modules).
+  `Module.valid` contains `ModRules.accepts` (re-adding the components one by one raises nothing).
+  Part 1b instantiates the rules with C14's transcription of `classify`/`add_component`
+  (`c14Rules`) and discharges that hypothesis for every module `build_modules_for_cds`,
+  `combine_modules` and the whole `generate_domains` loop produce (C14: `build_modules_good`,
+  `combine_keeps_good`, `chain_total`): no abstract hypothesis is left for NRPS/PKS results.
 -/
 import ASV.Proofs.ResultsGuards
+import ASV.Proofs.ResultsModules
+import ASV.Props.C14
 namespace ASV.C11
 open ASV ASV.Results ASV.Results.Spec
 
@@ -188,6 +192,56 @@ theorem hmmDetection_json_stable (ctx : Ctx) (x : HmmDet) (hv : x.valid ctx = tr
     ∃ y, HmmDet.fromJson ctx x.toJson = .reuse y ∧ y.rules.detach = x.rules.detach
       ∧ y.recordId = x.recordId ∧ y.enabledTypes = x.enabledTypes ∧ y.strictness = x.strictness :=
   ⟨_, HmmDet.fromJson_toJson ctx x hv, RuleRes.detach_detach x.rules, rfl, rfl, rfl⟩
+
+/-! ### Part 1b — NRPS/PKS modules: the re-adding contract discharged with C14's model
+
+  `ModuleOf mo m`: the stored module `mo` (whole HMM hits) is the saved form of C14's module `m`
+  (its components seen through `absC`: hit id, detailed names, coordinates, locus). -/
+
+/-- every module C14 calls `Good` reloads from its JSON under the concrete rules -/
+theorem module_json_roundtrip_good (mo : Module) (m : Modules.Module) (hg : Modules.Good m)
+    (ho : ModuleOf mo m) (hv : ∀ c ∈ mo.components, c.domain.valid = true) :
+    Module.fromJson c14Rules mo.toJson = .reuse mo :=
+  Module.fromJson_toJson c14Rules mo (valid_of_good mo m hg ho hv)
+
+/-- … in particular every module of `build_modules_for_cds`, for all domain lists -/
+theorem module_json_roundtrip_built (ds : List Modules.Domain) (name : String) (h : C14.InputOK ds name)
+    (ms : List Modules.Module) (hb : Modules.build ds name = .ok ms) (m : Modules.Module) (hm : m ∈ ms)
+    (mo : Module) (ho : ModuleOf mo m) (hv : ∀ c ∈ mo.components, c.domain.valid = true) :
+    Module.fromJson c14Rules mo.toJson = .reuse mo :=
+  module_json_roundtrip_good mo m (C14.build_modules_good ds name h ms hb m hm) ho hv
+
+/-- … and every module either gene holds after `combine_modules` (the merged one included) -/
+theorem module_json_roundtrip_combined (cs ps : Int) (cur prev : List Modules.Module)
+    (hp : ∀ m ∈ prev, Modules.Good m) (hc : ∀ m ∈ cur, Modules.Good m) (r : Modules.Combined)
+    (h : Modules.combine cs ps cur prev = .ok r) (m : Modules.Module) (hm : m ∈ r.prev ++ r.cur)
+    (mo : Module) (ho : ModuleOf mo m) (hv : ∀ c ∈ mo.components, c.domain.valid = true) :
+    Module.fromJson c14Rules mo.toJson = .reuse mo :=
+  module_json_roundtrip_good mo m (C14.combine_keeps_good cs ps cur prev hp hc r h m hm) ho hv
+
+/-- the results of a whole `generate_domains` run (any genes, strands, regions; modules merged over
+    gene borders): `x` stores, per gene, valid HMM hits and modules that are saved forms of modules
+    of `chain genes`.  Then `x` reloads to itself, for any number of cycles — no hypothesis about
+    re-adding. -/
+theorem nrpsPks_json_roundtrip_generated (genes : List Modules.Gene)
+    (h : ∀ g ∈ genes, C14.InputOK g.domains g.name) (out : List Modules.GeneResult)
+    (hout : Modules.chain genes = .ok out) (ctx : Ctx) (x : NrpsPks) (hid : x.recordId = ctx.recordId)
+    (hx : ∀ p ∈ x.cds, ctx.cdsNames.contains p.1 = true
+      ∧ (∀ d ∈ p.2.domainHmms, d.valid = true) ∧ (∀ d ∈ p.2.motifHmms, d.valid = true)
+      ∧ ∀ mo ∈ p.2.modules, (∀ c ∈ mo.components, c.domain.valid = true)
+          ∧ ∃ r ∈ out, ∃ m ∈ r.modules, ModuleOf mo m) :
+    NrpsPks.fromJson c14Rules ctx x.toJson = .reuse x
+    ∧ ∀ n, cycles NrpsPks.toJson (NrpsPks.fromJson c14Rules ctx) n x = .reuse x := by
+  obtain ⟨out', hout', hgood⟩ := C14.chain_total genes h
+  rw [hout] at hout'; injection hout' with hout'; subst hout'
+  have hv : x.valid c14Rules ctx = true := by
+    simp only [NrpsPks.valid, Bool.and_eq_true, List.all_eq_true, beq_iff_eq, CDSResult.valid]
+    refine ⟨hid, fun p hp => ?_⟩
+    obtain ⟨h1, h2, h3, h4⟩ := hx p hp
+    refine ⟨h1, ⟨h2, h3⟩, fun mo hmo => ?_⟩
+    obtain ⟨hvc, r, hr, m, hm, ho⟩ := h4 mo hmo
+    exact valid_of_good mo m (hgood r hr m hm) ho hvc
+  exact ⟨NrpsPks.fromJson_toJson c14Rules ctx x hv, fun n => nrpsPks_cycles c14Rules ctx n x hv⟩
 
 /-! ### Part 3 — guards: results saved under another schema, record or settings are never reused -/
 
@@ -407,6 +461,18 @@ def exRules : ModRules := ⟨fun _ => true, fun _ _ => true⟩
 def exNrps : NrpsPks := ⟨"rec1", [("cdsA", ⟨[exHit], [], [⟨[⟨exHit, "cdsA"⟩, ⟨.mk "ACP" 510 560 ⟨1, -9⟩ ⟨3, 1⟩ [], "cdsB"⟩], false⟩]⟩)]⟩
 example : exNrps.valid exRules exCtx = true := by decide
 example : NrpsPks.fromJson exRules { exCtx with recordId := "other" } exNrps.toJson = .discard := by rfl
+
+-- the bridge is not vacuous: the module C14's main loop builds from C A PCP is the one `exMod` stores
+def exMod : Module := ⟨[⟨.mk "Condensation_LCL" 10 100 ⟨1, -20⟩ ⟨505, -1⟩ [], "cdsA"⟩,
+  ⟨.mk "AMP-binding" 110 300 ⟨1, -20⟩ ⟨505, -1⟩ [], "cdsA"⟩, ⟨.mk "PCP" 320 380 ⟨1, -20⟩ ⟨505, -1⟩ [], "cdsA"⟩], true⟩
+example : (match Modules.buildGo (exMod.components.map absC) [] (Modules.Module.new true) with
+    | .ok ([], m) => decide (exMod.components.map absC = m.components) && (exMod.firstInCds == m.firstInCds)
+    | _ => false) = true := by decide +kernel
+example : exMod.valid c14Rules = true := by decide +kernel
+-- a module that cannot be re-added (a second starter after other components) is refused
+example : (match Module.fromJson c14Rules (Module.toJson ⟨exMod.components ++ [⟨.mk "PKS_KS" 400 500 ⟨1, -20⟩ ⟨505, -1⟩ [], "cdsA"⟩], true⟩) with
+    | .refuse .value => true
+    | _ => false) = true := by decide +kernel
 
 def exProto : Proto :=
   { loc := .compound [⟨900, 1000, .fwd⟩, ⟨0, 150, .fwd⟩], core := .simple ⟨20, 100, .fwd⟩, tool := "rule-based-clusters",
